@@ -155,11 +155,15 @@ def v1Field (P : X.Program) : String :=
 def v2Field (P : X.Program) : String :=
   if C01s.isV2 P then (if C01s.v2Ok P then "1" else "0") else "-"
 
+/-- `X=`: the same for the class V3 (calls of pure functions in operands; theorem `C01_v3_partial`). -/
+def v3Field (P : X.Program) : String :=
+  if C01s.isV3 P then (if C01s.v3Ok P then "1" else "0") else "-"
+
 def handle (line : String) : String :=
   match parseProgram line with
   | .error w => "bad-input " ++ w
   | .ok P =>
-    (fun r => r ++ " V=" ++ v1Field P ++ " W=" ++ v2Field P) <|
+    (fun r => r ++ " V=" ++ v1Field P ++ " W=" ++ v2Field P ++ " X=" ++ v3Field P) <|
     match stages P with
     | .error e => let c := "!" ++ e.className; s!"I={c} L={c} O={c} S={c} B={c}"
     | .ok s =>
